@@ -337,6 +337,10 @@ func genC07(env *Env, r *Rand, full bool) []Case {
 				cases = append(cases, &SilentCase{Mode: mode, Stmt: st, Mn: strings.Fields(st)[0], Shape: "badpair:" + m, Expect: "invalid", Cell_: "badpair " + strings.Fields(st)[0] + " " + m})
 			}
 		}
+		// an EQU that takes the name of a label defined above it and mentions that name: a definition in terms of itself
+		for _, d := range []string{"deflabel\tEQU\tdeflabel+1\n\tMOV BX,deflabel", "deflabel\tEQU\tdeflabel*2\n\tDW deflabel", "deflabel\tEQU\t1+deflabel\n\tMOV AX,[BX+deflabel]"} {
+			cases = append(cases, &SilentCase{Mode: mode, Stmt: d, Mn: "EQU", Shape: "selfref-label-equ:" + strings.Fields(d)[2], Expect: "invalid", Cell_: "selfref label/equ " + strings.Fields(d)[2]})
+		}
 		// forward reference in data after a branch has pre-seeded the symbol table
 		cases = append(cases, &SilentCase{Mode: mode, Stmt: "JNZ after\n\tDW after", Mn: "DW", Shape: "data:forward-after-branch", Expect: "fwd", Cell_: "data forward-after-branch"})
 	}
